@@ -28,7 +28,27 @@ claim("C13", "DESIGN.md §2 C13",
       "call-site inventory + evidence-form classification (dominance, provenance), lock-span check from the lockset dataflow",
       COMMON_NOTE)
 
+claim("C12", "DESIGN.md §2 C12",
+      "Decides the shape of the back-pressure protocol, each rule a necessary condition of 'no lost wake-up': every successful return of Store.Flush passes the broadcast point (test-and-close of flushNotice under rateLk, directly or via a helper all of whose paths do); close is followed by flushNotice=nil before the lock is released; flushTick creates-if-nil and loads the channel in one exclusive rateLk section, waits on that loaded value without the lock, signals flushNow non-blockingly after registering and before waiting; the flusher serves every flushNow signal with a Flush, sends to flushNow only non-blockingly, and flushNow is buffered. Freedom from lost wake-ups over all schedules is a model-checking question and is NOT decided.",
+      "must-pass-through path rules with helper summaries, lockset dataflow for critical-section membership, select/send shape checks over go/ssa",
+      COMMON_NOTE)
+
+claim("C14", "DESIGN.md §2 C14",
+      "Structural necessary conditions of 'never closes a lent handle': every os.File.Close in package filecache (inventory) is dominated by last-holder evidence (entry refs==0 / removed-count==1 / handle shown unmanaged); FileCache.Close changes an entry's count only after showing the entry holds this very *os.File; counts incremented exactly where a cached handle is handed out, decremented only behind a non-zero check, evicted-but-referenced entries move to removed with their count; every access to FileCache/entry fields holds FileCache.lock (lockset analysis, all exported methods as self-concurrent roots); every client Open outside the package is paired with FileCache.Close of the same cache on all success paths and the handle does not escape. The exhaustive operation-sequence behaviour and the descriptor bound are not decided.",
+      "close-site inventory with dominance evidence forms, typestate-like refcount rules, lockset analysis",
+      COMMON_NOTE)
+
+claim("C15", "DESIGN.md §2 C15",
+      "Decides the shape of the thin adapter (necessary conditions of its contract): every store call in a context-taking method is dominated by the ctx.Err()==nil edge and the other edge returns ctx.Err(); the key handed to the store is cid.Hash() of the requested CID/block, the value the block's RawData; a miss returns ipld.ErrNotFound carrying the requested CID, data only on the found edge, Has returns the store's answer; the store's Put error reaches a return only on the not-ErrKeyExists edge (Put/PutMany agree); Store.GetSize = indexed size − len(key) (affine); HashOnRead stores its argument, re-hashing only when enabled and then only a verified block is returned. Round-trip byte equality is inherited from C01 and not decided here.",
+      "dominance path rules, value provenance, parameter-flow and affine checks over go/ssa",
+      COMMON_NOTE)
+
+claim("C17", "DESIGN.md §2 C17",
+      "Structural necessary conditions of 'Close stops everything and releases every resource': for every go statement (inventory, min 5) the goroutine begins with defer close(done), its loop's stop case never re-enters the loop, GC supervisors cancel the cycle context and wait for a running cycle, the go statement is the last fallible step of its spawner, a stopper closes stop before waiting for done and every flush/file-close/snapshot in the stopper is only reachable behind that wait (or the never-started edge); Store.Close reaches every component Close on all paths; OpenStore/translateIndex/inner Opens release what they acquired before every error return reachable after the acquisition; cache handles are returned and closed only by their last holder. Goroutine/descriptor counts and directory quiescence as observations are not decided.",
+      "go-statement inventory + CFG path rules (must-follow, gate dominance), release-on-failure typestate over acquisitions",
+      COMMON_NOTE)
+
 PENDING = "check for this property is still being built in this session; see DESIGN.md for the planned structural rules"
-for p in ["C04","C05","C06","C07","C08","C09","C10","C12","C14","C15","C17"]:
+for p in ["C04","C05","C06","C07","C08","C09","C10"]:
     na(p, PENDING)
 na("C11", "progress, reclaimed byte counts, 'bounded number of cycles' and fixed points are quantities of executions; no refactoring-stable structural necessary condition exists beyond safety rules already claimed under C04/C07 (DESIGN.md §2 C11)")
